@@ -880,6 +880,10 @@ func evalActionAdd(node *ActionExpression, env *Environment) Object {
 		return val
 	}
 
+	// as for SET: what is added must not share state with the attribute or the
+	// expression attribute value it was read from
+	val = copyObject(val)
+
 	id, ok := node.Left.(*Identifier)
 	if ok {
 		// We need to validate left hand side is not a keyword
